@@ -312,8 +312,13 @@ void body()
     sink.count("file_operations_recorded", L.rec.mutIdx.size());
     sink.count("max_history_file_operations", L.rec.mutIdx.size());
     sink.count("crash_points_last_call", L.points.size());
+    // deterministic choice of samples: history number (digits = calls) divisible by 97, the first 8 of them
+    uint64_t n = 0;
+    for (char ch : h)
+      for (int i = 0; i < NOPS_ALL; ++i)
+        if (OPS[i].code == ch)
+          n = n * uint64_t(NOPS_ALL + 1) + uint64_t(i + 1);
     lockG();
-    uint64_t n = G->samplesSeen++;
     if (n % 97 == 0 && n / 97 < 8)
       snprintf(G->samples[n / 97], sizeof G->samples[0], "kv h=%s :: [%s] file-ops=%zu crash-points(last call)=%zu groups=%zu", h.empty() ? "-" : h.c_str(),
                histName(h).c_str(), L.rec.mutIdx.size(), L.points.size(), groups.size());
